@@ -9,3 +9,4 @@ pub mod print;
 pub mod reference;
 pub mod rng;
 pub mod shard;
+pub mod textgen;
